@@ -1,7 +1,8 @@
 package bunpaginate
 
 var zzRegistry = map[string]func(int){
-	"ZZ_C17Col": ZZ_C17Col,
-	"ZZ_C17Off": ZZ_C17Off,
-	"ZZ_C17Tok": ZZ_C17Tok,
+	"ZZ_C17Col":     ZZ_C17Col,
+	"ZZ_C17Off":     ZZ_C17Off,
+	"ZZ_C17Tok":     ZZ_C17Tok,
+	"ZZ_C17OffWalk": ZZ_C17OffWalk,
 }
